@@ -29,6 +29,20 @@ Proof. exact next_threshold_eq. Qed.
 Print Assumptions C10_threshold_after_resize.
 
 (* ---- the protocol: any table length, any number of threads, any schedule ---- *)
+(* Resizes of different generations do not overlap through a helper that slept: help_transfer
+   validates `table` / `next_table` and only then reads size_ctl, so the value it reads may belong
+   to the resize of a later table; every size_ctl value of the resize of a table of length m is
+   rs m + k with 0 <= k <= MAX_RESIZERS, and the join test (regenerated from map.rs) refuses all of
+   them unless m is the length of the table the helper holds.  On the code as found this statement
+   was false (finding F6: a helper holding the retired 16-bin table joined the resize of the 32-bin
+   table, left last and nobody finished the resize); Proofs/ArithProofs.v keeps the witness. *)
+Theorem C10_helper_joins_own_generation : forall n m k ti,
+  In n table_lengths -> In m table_lengths -> n <> m -> 0 <= k <= MAX_RESIZERS ->
+  help_transfer_break (rs m + k) (rs_help_transfer n) ti = true.
+Proof. exact helper_joins_own_generation. Qed.
+Print Assumptions C10_helper_joins_own_generation.
+
+
 Section Protocol.
 Variables (n ncpu sc0 : Z) (bins0 : list binstate) (k : nat).
 Hypothesis Hn : In n table_lengths.
@@ -73,3 +87,29 @@ Print Assumptions C10_published_after_all_migrated.
 Print Assumptions C10_completion.
 Print Assumptions C10_helpers_bounded.
 Print Assumptions C10_indices_in_range.
+
+(* ---- generations (Model/GenProto.v): successive resizes, and helpers that may have slept through
+   any number of them, following help_transfer step by step (validate table / next_table; load
+   size_ctl and apply the join test regenerated from map.rs; CAS size_ctl + 1; later leave with the
+   election test computed from the table they hold).  For every number of helpers and every
+   schedule of helper and environment actions: no helper is ever inside transfer - or elected
+   finisher - for a table that is not the current one, and size_ctl never rests at rs + 1 with
+   nobody to finish the resize.  The same model run with the join test as it was before fix
+   1ef080f reaches both (finding F6). *)
+From Flurry Require Import Model.GenProto Proofs.GenProofs.
+
+Theorem C10_no_stale_helper_inside : forall k sched,
+  stale_inside (grun help_transfer_break (ginit k) sched) = false.
+Proof. exact no_stale_helper_inside. Qed.
+Print Assumptions C10_no_stale_helper_inside.
+
+Theorem C10_resize_never_left_unfinished : forall k sched,
+  stuck (grun help_transfer_break (ginit k) sched) = false.
+Proof. exact never_stuck. Qed.
+Print Assumptions C10_resize_never_left_unfinished.
+
+Theorem C10_F6_before_fix :
+  (exists sched, stale_inside (grun help_transfer_break_before_fix (ginit 1) sched) = true) /\
+  (exists sched, stuck (grun help_transfer_break_before_fix (ginit 1) sched) = true).
+Proof. exact (conj F6_stale_helper_before_fix F6_stuck_before_fix). Qed.
+Print Assumptions C10_F6_before_fix.
